@@ -36,7 +36,7 @@ XNext == XParse \/ XReparse \/ XRender
 
 Emit == phase # "init" =>
     PrintT(ToJson([phase |-> phase, q |-> q, m |-> m, kb |-> kb, csv |-> csv, cl |-> cl,
-                   entries |-> res.entries, blankcsv |-> res.blankcsv]))
+                   entries |-> res.entries, zero |-> res.zero, blankcsv |-> res.blankcsv]))
 
 (* wrong-design switch for the vacuity run (MC_QueryStringBad.cfg: ValuesOf <- DecodeThenSplit): splitting
    at commas AFTER decoding turns an escaped comma into a separator and must be caught by RoundTrip *)
